@@ -502,7 +502,8 @@ cdef class StratifiedSFCNNPS(NNPS):
             level = key >> self.max_num_bits
             key_stripped = key & strip_mask
             current_hmax_level = current_hmax[level]
-            hmax_cell = current_hmax_level[key_stripped]
+            # the boxes serve the destination particles of every array
+            hmax_cell = self._cell_hmax(level, key_stripped)
             mask_length = 0
 
             current_key_to_nbr_idx_level = current_key_to_nbr_idx[level]
@@ -554,7 +555,8 @@ cdef class StratifiedSFCNNPS(NNPS):
                 level = key >> self.max_num_bits
                 key_stripped = key & strip_mask
                 current_hmax_level = current_hmax[level]
-                hmax_cell = current_hmax_level[key_stripped]
+                # the boxes serve the destination particles of every array
+                hmax_cell = self._cell_hmax(level, key_stripped)
                 mask_length = 0
                 current_key_to_nbr_idx_level = current_key_to_nbr_idx[level]
                 current_key_to_nbr_length_level = current_key_to_nbr_length[level]
